@@ -230,7 +230,7 @@ def frame_dims(part):
 
 
 def _frame_point(idx):
-    (kind, text, i, j, off, bs), mi, (chunked, fh, cv) = decode_point(idx, frame_dims(P))
+    (kind, text, i, j, off, bs), mi, (chunked, fh, cv) = decode_point(idx, frame_dims)
     return N._untraced(_frame_body)(kind, text, i, j, off, bs, mi, chunked, fh, cv)
 
 
@@ -354,7 +354,7 @@ def resend_dims(part):
 
 
 def _resend_point(idx):
-    front, hi, (kind, text, off) = decode_point(idx, resend_dims(P))
+    front, hi, (kind, text, off) = decode_point(idx, resend_dims)
     if front == 0 and hi == 7:
         return True
     return N._untraced(_resend_body)(front, kind, hi, text, off)
